@@ -128,7 +128,9 @@ partial def showVV (tbl : List (Nat × String)) : DTy → VV → Option String
     (xs.mapM (showVV tbl t)).map (fun ss => "[ " ++ String.intercalate ", " ss ++ " ]")
   | .tup ts, .strct xs =>
     if ts.length != xs.length then none else
-    ((ts.zip xs).mapM (fun (t, x) => showVV tbl t x)).map (fun ss => "(" ++ String.intercalate ", " ss ++ ")")
+    ((ts.zip xs).mapM (fun (t, x) => showVV tbl t x)).map (fun ss =>
+      -- the prelude prints tuples up to width 4; a wider result is destructured and printed one component per line
+      if ts.length > 4 then String.intercalate "\\n" ss else "(" ++ String.intercalate ", " ss ++ ")")
   | .strct name fs, .strct xs =>
     let fs' := fs.filter (fun t => match t with | .unit => false | _ => true)
     if fs'.length != xs.length then none else
